@@ -57,12 +57,38 @@ def cmp_sym(term, expr, rtol=1e-9):
 
 
 def cmp_rrt(term, rrt, rtol=1e-9):
-    if type(rrt).__name__ != "RegRefTransform":
-        return "expected a RegRefTransform, got %r" % (rrt,)
     names = term_symbols(term)
+    if type(rrt).__name__ != "RegRefTransform":
+        # a register that cancels identically (q1*(0+0), q0-q0) is outside the properties: accept a constant that equals the
+        # expression at every sample assignment; anything else is a transform that was not delivered
+        try:
+            const = complex(rrt)
+            vals = [values.eval_term(term, sample_env(names, j))[0] for j in range(SAMPLES)]
+            if all(abs(complex(v) - const) <= 1e-9 * max(1.0, abs(const)) for v in vals):
+                return None
+        except (TypeError, ValueError, values.NotComparable):
+            pass
+        return "expected a RegRefTransform, got %r" % (rrt,)
     regs = sorted(int(n[1:]) for n in names if n.startswith("q") and n[1:].isdigit())
     if sorted(rrt.regrefs) != regs:
-        return "regrefs %s, the expression mentions registers %s" % (rrt.regrefs, regs)
+        missing = set(regs) - set(rrt.regrefs)
+        cancels = bool(missing) and not (set(rrt.regrefs) - set(regs)) and len(set(rrt.regrefs)) == len(rrt.regrefs)
+        if cancels:
+            # a listed subset is acceptable only if the written expression does not depend on the missing registers at all
+            # (they cancel identically, e.g. q0*B[0] + q1 with B[0] = 0): outside the properties
+            try:
+                for j in range(SAMPLES):
+                    env = sample_env(names, j)
+                    env2 = dict(env)
+                    for m in missing:
+                        env2["q%d" % m] = env["q%d" % m] * 1.7 + 0.9
+                    a, b = values.eval_term(term, env)[0], values.eval_term(term, env2)[0]
+                    if abs(complex(a) - complex(b)) > 1e-9 * max(1.0, abs(complex(a))):
+                        cancels = False
+            except values.NotComparable:
+                cancels = False
+        if not cancels:
+            return "regrefs %s, the expression mentions registers %s" % (rrt.regrefs, regs)
     if any(not (n.startswith("q") and n[1:].isdigit()) for n in names):
         return None          # registers mixed with template parameters: outside the properties
     for j in range(SAMPLES):
